@@ -326,6 +326,14 @@ static int _GD_Change(DIRFILE *D, const char *field_code, const gd_entry_t *N,
     GD_RETURN_ERROR(D);
 
   early = E->flags & GD_EN_EARLY ? 1 : 0;
+
+  /* The new literals are compared with the entry's current ones to tell a
+   * change from "leave as it is": resolve scalar parameters first (quietly --
+   * an unresolvable one leaves the entry uncalculated, as before), otherwise
+   * the comparison is made with values that were never, or are no longer
+   * (gd_put_constant), the parameters of the field */
+  if (!(E->flags & GD_EN_CALC))
+    _GD_CalculateEntry(D, E, 0);
   calc = E->flags & GD_EN_CALC ? 1 : 0;
 
   memcpy(&Qe, E->e, sizeof(struct gd_private_entry_));
